@@ -101,6 +101,7 @@ type fstream struct {
 	startSt  int64
 	syncSeen []int // indexes of sync responses in log
 	onSync   func()
+	second   *pb.SubscribeRequest // what a later Recv returns instead of a poll trigger
 }
 
 func (s *fstream) Context() context.Context { return s.ctx }
@@ -113,6 +114,9 @@ func (s *fstream) Recv() (*pb.SubscribeRequest, error) {
 	case 0:
 		if _, ok := vrt.RecvNow2(s.pollC); !ok {
 			return nil, io.EOF
+		}
+		if s.second != nil {
+			return s.second, nil
 		}
 		return &pb.SubscribeRequest{Request: &pb.SubscribeRequest_Poll{Poll: &pb.Poll{}}}, nil
 	default:
